@@ -21,6 +21,7 @@ from . import cfg as C
 from .core import FuncInfo, Repo, parent_map
 
 Path = Tuple[str, ...]
+SHELLS = {"fresh:list", "fresh:tuple", "fresh:set", "fresh:dict", "fresh:comp", "fresh:list()", "fresh:set()", "fresh:dict()", "fresh:tuple()"}
 MAXLEN = 14
 MAXPATHS = 400
 
@@ -98,7 +99,10 @@ class Prov:
     # ------------------------------------------------------------------
     def _ext(self, paths: Set[Path], step: str) -> Set[Path]:
         out = set()
+        shell_step = step == "elem" or step.startswith("item")
         for p in paths:
+            if shell_step and len(p) == 1 and p[0] in SHELLS:
+                continue  # the elements of a fresh container are its 'in:' flows, the container object has no others
             out.add(p + (step,) if len(p) < MAXLEN else p)
         return out
 
